@@ -157,6 +157,11 @@ def main(argv):
     time.sleep = lambda s: sleeps.append(float(s))
     import_target()
     import numpy as np
+    # the caller is a reproducible script: it seeds the global generators first thing, in EVERY run (the killed run, the
+    # later run, every one of several concurrent runs).  Whatever the loader names or decides with them repeats.
+    import random as _random
+    _random.seed(20240921)
+    np.random.seed(20240921)
     import traffic_weaver.datasets as ds
     import traffic_weaver.datasets._base as base
     net = fakenet.install()
